@@ -152,6 +152,9 @@ pub(crate) enum Message {
     /// verif-hooks: the block assembler's size bookkeeping next to the real sizes of its template
     #[cfg(feature = "verif-hooks")]
     VerifAssemblerSize(Request<(), Option<[usize; 8]>>),
+    /// verif-hooks: run one real block-assembler update path, returning the state before / after
+    #[cfg(feature = "verif-hooks")]
+    VerifAssemblerStep(Request<(u8, Option<Arc<Snapshot>>), Option<crate::verif::AsmStep>>),
 }
 
 /// verif-hooks: boxed read-only probe executed by the service under the tx-pool read lock
@@ -234,6 +237,19 @@ impl TxPoolController {
     #[cfg(feature = "verif-hooks")]
     pub fn verif_assembler_size(&self) -> Result<Option<[usize; 8]>, AnyError> {
         send_message!(self, VerifAssemblerSize, ())
+    }
+
+    /// verif-hooks: run ONE real update path of the block assembler (0 `update_blank(snapshot)`,
+    /// 1 `update_full`, 2 `update_uncles`, 3 `update_proposals`, 4 `update_transactions`) inside the
+    /// service and return the assembler / candidate / pool facts before and after it
+    /// (`None` when block assembly is disabled).
+    #[cfg(feature = "verif-hooks")]
+    pub fn verif_assembler_step(
+        &self,
+        kind: u8,
+        snapshot: Option<Arc<Snapshot>>,
+    ) -> Result<Option<crate::verif::AsmStep>, AnyError> {
+        send_message!(self, VerifAssemblerStep, (kind, snapshot))
     }
 
     /// Return whether tx-pool service is started
@@ -1059,6 +1075,20 @@ async fn process(mut service: TxPoolService, message: Message) {
             };
             if let Err(e) = responder.send(r) {
                 error!("Responder sending verif_assembler_size failed {:?}", e)
+            };
+        }
+        #[cfg(feature = "verif-hooks")]
+        Message::VerifAssemblerStep(Request {
+            responder,
+            arguments: (kind, snapshot),
+        }) => {
+            let r = if let Some(ref ba) = service.block_assembler {
+                Some(crate::verif::assembler_step(ba, &service.tx_pool, kind, snapshot).await)
+            } else {
+                None
+            };
+            if responder.send(r).is_err() {
+                error!("Responder sending verif_assembler_step failed")
             };
         }
         #[cfg(feature = "verif-hooks")]
